@@ -43,7 +43,7 @@ def gen(rng, tier, index):
         ops.append(["readonly_tick"])
     elif cfg["persistence"] and rng.random() < 0.2:
         # one scheduled save hits a transient I/O error; nothing changes afterwards
-        ops.append(["fault_tick", rng.choice(["open", "write", "flush", "fsync", "close", "rename", "rename", "remove"]), rng.choice(["EIO", "EACCES", "ENOSPC"])])
+        ops.append(["fault_tick", rng.choice(["open", "write", "flush", "fsync", "close", "rename", "rename2", "rename2", "remove"]), rng.choice(["EIO", "EACCES", "ENOSPC"])])
     if rng.random() < 0.3:
         # stop() racing with a scheduled save that has something to write
         cfg["sched"] = {"policy": "rw", "seed": rng.getrandbits(32), "p": rng.choice([0.02, 0.08, 0.2])}
